@@ -15,7 +15,7 @@ use std::time::Instant;
 /// Root of the verification tree: the directory of the `check` script that started us (a background
 /// run from a snapshot writes its evidence and replays into the snapshot), /verif by default.
 pub fn verif_dir() -> String {
-    std::env::var("LV_verif_dir()").unwrap_or_else(|_| "/verif".to_string())
+    std::env::var("LV_VERIF_DIR").unwrap_or_else(|_| "/verif".to_string())
 }
 
 /// An oracle failure: a stable signature (what the known-findings matcher keys on)
